@@ -1,6 +1,6 @@
 """C10 -- derived circuits share parameters with their operands (the reference chain)."""
 from ..core import Ctx, Ob, PropSpec
-from ..rules import r1, r2, r3, r6
+from ..rules import r1, r2, r3, r6, r10
 
 
 def run(ctx: Ctx) -> list[Ob]:
@@ -17,6 +17,7 @@ def run(ctx: Ctx) -> list[Ob]:
     obs += r3.r3a(ctx)
     obs += r3.r3e(ctx)
     obs += r6.r6b(ctx)
+    obs += r10.r10g(ctx)
     return obs
 
 
@@ -30,9 +31,9 @@ SPEC = PropSpec(
         "creates a TensorParameter and every layer it constructs gets its primary parameters explicitly (no fresh learnable tensor); "
         "R1b/R1c -- ReferenceParameter compiles to a TorchPointerParameter fed by p.deref(); R3a -- parameter operators copied by "
         "ref() keep their hyper-parameters; R3e -- folded tensors are re-registered per slice; R6b -- operands are compiled first and "
-        "once, and registered after post-processing."
+        "once, and registered after post-processing. R10g (evaluation purity): no evaluation method (forward, __call__, evaluate, log_partition_function, integrate, sample, ...) of any torch-side layer, parameter node, parameter graph or circuit stores anything on self -- a value memoised during evaluation survives in-place updates / re-initialisation / load_state_dict of the parameters it was computed from."
     ),
     not_decided="numerical relations after parameter updates (they follow from single storage, which is what is decided).",
     run=run,
-    floors={"R2a": 70, "R2b": 25, "R3e": 5, "R6b": 10, "R3a": 60},
+    floors={"R10g": 60, "R2a": 70, "R2b": 25, "R3e": 5, "R6b": 10, "R3a": 60},
 )
